@@ -94,6 +94,9 @@ HEADERS = [
     "Summary.\n\nSee also the docs: not a param.\n\nThird paragraph",
     "Summary.\n\nOverview\n--------\nProse under an RST sub-heading.\n\n----------\n\nMore prose after a rule.",
     "Summary.\n\nAny extra kwargs: are passed on; args: too.\n\nModel parameters\n----------------\nare described elsewhere.",
+    # the FIRST paragraph itself is wrapped over several lines (no blank line after the first line)
+    "Acquire the lock and return the worker that\ncurrently holds it, waiting if need be\nfor at most the timeout.",
+    "First paragraph wrapped\nover two lines.\n\nSecond paragraph.",
 ]
 
 
